@@ -178,6 +178,9 @@ class CallMixin:
             kind, inner = spec[:4], spec[5:-1]
             self._add_axiom(z3.Implies(v != smt.ABSENT, self.type_formula(v, '=' + kind)))
             self.container_elem_type[smt.simp(v).get_id()] = inner
+            if kind == 'list':
+                sq = smt.simp(z3.Select(self.strip_fresh(self.st.seq), Val.r(v)))
+                self.seq_elem_type[sq.get_id()] = inner
         else:
             self._add_axiom(z3.Implies(v != smt.ABSENT, self.type_formula(v, spec)))
 
